@@ -94,6 +94,35 @@ def run(prog, rep, tier='quick', config='default'):
                             ('office::DataType' in f.ty.get(pl['l'], '') or 'office::DataType' in pl.get('t', '')):
                         rep.violation('R18b', '%s|positional-index' % f.name, where=f.where(s), fn=f.name,
                                       detail='the converter indexes a row by position')
+    # ... nor through the sheet range itself (`sheet.get_value(row, 0)`, `sheet[(r, c)]`): a position is not a header name
+    for f in qt + [g for f0 in qt for g in prog.closures_of(f0)]:
+        for c in f.calls:
+            if re.search(r'^office::Range::(get_value|get_formula|get)$|^<office::Range as std::ops::Index', c.callee):
+                rep.violation('R18b', '%s|positional-%s' % (f.name.split('::{')[0], c.short), where=c.where(), fn=f.name,
+                              detail='the converter reads a cell of the sheet by (row, column) position (%s) instead of by header name: what it '
+                                     'finds depends on the column order of the export' % c.callee)
+    # R18h: every row of the sheet is offered to the converter: the loops over Range::rows() run over all of them (the header row may be
+    # skipped / taken off first); no take / take_while / filter / step_by / rev on the row iterator
+    ROW_DROPS = {'take', 'take_while', 'skip_while', 'filter', 'filter_map', 'step_by', 'rev', 'map_while', 'nth', 'last', 'chain', 'zip'}
+    n_rowloops = 0
+    for f in qt + [g for f0 in qt for g in prog.closures_of(f0)]:
+        for (nc, header, body) in f.iterator_loops():
+            src = mir.provenance(f, nc.args[0], pass_through=ITER_PASS | {'skip', 'by_ref', 'peekable'})
+            if not any(re.search(r'^office::Range::rows$', x.callee) for x in src.calls):
+                continue
+            n_rowloops += 1
+            k = '%s|every-sheet-row-is-visited#%d' % (f.name.split('::{')[0], n_rowloops)
+            bad = [x for x in src.calls if x.short in ROW_DROPS and x.decl.startswith('std::iter::')]
+            skips = [x for x in src.calls if x.short == 'skip' and x.decl.startswith('std::iter::')]
+            bad += [x for x in skips if not (len(x.args) > 1 and x.args[1].get('k') == 'const' and str(x.args[1].get('v', '')).startswith('1_'))]
+            if bad:
+                rep.violation('R18h', k, where=bad[0].where(), fn=f.name,
+                              detail='the rows of the sheet pass through %s() before they are converted: rows it leaves out are silently missing '
+                                     'from the output' % bad[0].short)
+            else:
+                rep.ok('R18h', k, where=nc.where(), fn=f.name, detail='the loop runs over Range::rows() unfiltered (at most the header row is skipped)')
+    if n_rowloops == 0:
+        rep.violation('R18h', 'anchor-lost:row-loop', detail='anchor lost: the loop over the rows of the sheet in the Questrade converter')
     if getters >= 5:
         rep.ok('R18b', 'cells-read-by-name', fn='peripheral::broker::questrade', detail='%d SheetReader::get* call sites, no positional cell access' % getters)
     else:
